@@ -688,6 +688,9 @@ func runOnce(out *vh.Out, rng *vh.Rng, runNo int, mode string) {
 		for i, t := range tags {
 			ts = append(ts, n.u.tip(baseEpoch+int64(i)+1, t))
 		}
+		if len(ts) >= gpbft.ChainMaxLen {
+			return &gpbft.ECChain{TipSets: append([]*gpbft.TipSet{n.base}, ts...)} // over-long on purpose
+		}
 		c, err := gpbft.NewChain(n.base, ts...)
 		if err != nil {
 			panic(err)
@@ -695,6 +698,11 @@ func runOnce(out *vh.Out, rng *vh.Rng, runNo int, mode string) {
 		return c
 	}
 	L := 1 + rng.Intn(5)
+	if mode != "script" && N <= 4 && rng.Intn(12) == 0 {
+		// EC hands over more than the protocol maximum (128 tipsets incl. the base): the participant must cut
+		// the proposal, not refuse to begin
+		L = 125 + rng.Intn(12)
+	}
 	main := make([]int, L)
 	for i := range main {
 		main[i] = 0
